@@ -17,7 +17,7 @@ cobaenv.register()
 from coba.pipes import Multiprocessor, ListSink                   # noqa: E402
 from coba.multiprocessing import CobaMultiprocessor               # noqa: E402
 from coba.context import CobaContext, BasicLogger, NullCacher, MemoryCacher   # noqa: E402
-from vf.lib.mpharness import TenTimes, TenTimesGen, InjectedError, EXC_KINDS              # noqa: E402
+from vf.lib.mpharness import TenTimes, TenTimesGen, InjectedError, EXC_KINDS, FALSY              # noqa: E402
 
 
 # the two completion callbacks run on callback threads of the parent and update shared counters (_n_procs, _exceptions):
@@ -25,9 +25,16 @@ from vf.lib.mpharness import TenTimes, TenTimesGen, InjectedError, EXC_KINDS    
 sched.trace_lines(sched.nested_code(Multiprocessor.filter, 'loader_finished_or_failed', 'filter_finished_or_failed'), 'parent-callbacks')
 
 
+def items_of(case):
+    if case.get('itemkind') == 'falsy':
+        rot = case.get('rot', 0)
+        return (FALSY[rot:] + FALSY[:rot])[:case['items']]
+    return list(range(1, case['items'] + 1))
+
+
 def make_body(case):
     wrapper, n, m, nitems, faults, consumer = case['wrapper'], case['n'], case['m'], case['items'], case['faults'], case['consumer']
-    items = list(range(1, nitems + 1))
+    items = items_of(case)
     def body():
         if wrapper == 'coba':
             mp = CobaMultiprocessor(TenTimesGen(faults, case.get('exc', 'custom'), case.get('fan', 'one')), n, m)
@@ -59,17 +66,18 @@ def before():
 
 def feature(case):
     return (f"{case['wrapper']} n{'=1' if case['n']==1 else '>1'} m{'=0' if case['m']==0 else '>0'} "
-            f"{'faults' if case['faults'] else 'nofault'}{'' if case.get('exc', 'custom') == 'custom' else ' raising ' + case['exc']}{'' if case.get('fan', 'one') == 'one' else ' outputs-per-item=' + case['fan']} consumer={'all' if case['consumer']=='all' else 'early'}")
+            f"{'falsy-items ' if case.get('itemkind') == 'falsy' else ''}{'stream-longer-than-input-queue ' if case['items'] > 2 * case['n'] and case['items'] > 4 else ''}{'faults' if case['faults'] else 'nofault'}{'' if case.get('exc', 'custom') == 'custom' else ' raising ' + case['exc']}{'' if case.get('fan', 'one') == 'one' else ' outputs-per-item=' + case['fan']} consumer={'all' if case['consumer']=='all' else 'early'}")
 
 
 def judge(case, ex):
     """Oracle for one complete execution: list of (mode, what)."""
     bad = []
-    items = list(range(1, case['items'] + 1))
+    items = items_of(case)
     faults = set(case['faults'])
     fan = case.get('fan', 'one')
     expected = collections.Counter()
     for x in items:
+        if fan == 'echo': expected.update(['echo:' + repr(x)]); continue
         if x in faults: continue
         if fan == 'two': expected.update([10 * x, 10 * x + 1])
         elif fan == 'skip1' and x == 1: pass
@@ -171,6 +179,20 @@ class C08(Check):
                 for k in (2, 3):
                     if tier == 'quick' and k == 3 and (n, m) != (1, 1): continue
                     out.append({'wrapper': wrapper, 'n': n, 'm': m, 'items': k, 'faults': [], 'consumer': 'all', 'fan': fan})
+        # item VALUES that are falsy / None (a stream may carry them): every rotation of [None, 0, '', ()] as the first 1..4 items
+        for wrapper, n, m in (('mp', 2, 0), ('mp', 1, 1), ('coba', 2, 0), ('coba', 1, 1), ('coba', 1, 0), ('mp', 1, 0)):
+            for rot in range(4):
+                for k in ((1, 2) if tier == 'quick' else (1, 2, 4)):
+                    if tier == 'quick' and k == 2 and (n, m) != (2, 0): continue
+                    out.append({'wrapper': wrapper, 'n': n, 'm': m, 'items': k, 'faults': [], 'consumer': 'all', 'fan': 'echo', 'itemkind': 'falsy', 'rot': rot})
+        # streams LONGER than the bounded input queue (2*n_processes): the loader thread is blocked in put() when workers die / the consumer leaves
+        for wrapper, n, m in (('mp', 1, 1), ('mp', 2, 1), ('mp', 2, 0), ('coba', 1, 1)):
+            if tier == 'quick' and wrapper == 'coba': continue
+            k = 2 * n + 3
+            fsets = [[], [1], [k]] + ([[1, 2]] if n == 2 else []) + ([[2], [1, 3]] if tier == 'thorough' else [])
+            for faults in fsets:
+                out.append({'wrapper': wrapper, 'n': n, 'm': m, 'items': k, 'faults': faults, 'consumer': 'all'})
+            out.append({'wrapper': wrapper, 'n': n, 'm': m, 'items': k, 'faults': [], 'consumer': 1})
         out.sort(key=lambda c: (c['items'], c['n'], c['m'], len(c['faults']), c['consumer'] != 'all', c['wrapper'], c.get('exc', ''), c.get('fan', '')))
         return out
 
@@ -274,8 +296,8 @@ class C08(Check):
     def post(self, acc, tier):
         # 'huge' exceptions are not replayed on the real OS in the registered runs: the real run hangs (listed finding), which would cost a
         # 60 s timeout per run; the pipe-capacity model of the simulated layer was confirmed against real spawn once (vf/lib/realmp.py)
-        confs = [c for c in self.cases(tier) if c['wrapper'] == 'mp' and not (c['n'] == 1 and c['m'] == 0) and c['consumer'] == 'all' and c.get('exc') != 'huge']
-        pick = confs if tier == 'thorough' else [c for c in confs if c['items'] == 2 and c['n'] == 2 and len(c['faults']) <= 1 and 'exc' not in c][:6] + [c for c in confs if c.get('exc') in ('EOFError', 'ValueError', 'cannot-unpickle') and c['n'] == 2 and c['faults'] == [1]] + [c for c in confs if c.get('fan') in ('two', 'none1') and (c['n'], c['m'], c['items']) == (2, 0, 2)]
+        confs = [c for c in self.cases(tier) if c['wrapper'] == 'mp' and not (c['n'] == 1 and c['m'] == 0) and c['consumer'] == 'all' and c.get('exc') != 'huge' and 'itemkind' not in c]
+        pick = confs if tier == 'thorough' else [c for c in confs if c['items'] == 2 and c['n'] == 2 and len(c['faults']) <= 1 and 'exc' not in c][:6] + [c for c in confs if c.get('exc') in ('EOFError', 'ValueError', 'cannot-unpickle') and c['n'] == 2 and c['faults'] == [1]] + [c for c in confs if c.get('fan') in ('two', 'none1') and (c['n'], c['m'], c['items']) == (2, 0, 2)] + [c for c in confs if c['items'] > 4 and c['faults'] == [1]]
         n_ok = self.real_runs(pick, acc)
         acc.traces += n_ok
         return {'real_os_conformance_runs': n_ok}
